@@ -52,7 +52,12 @@ RULE = (
     "alias = arguments unchanged by construction / reading / writing, observations repeatable and equality-preserving, "
     "one object under two keys / in two parents, sharing with arguments recorded as unspecified; reuse = one file object "
     "written, modified through the mapping interface (11 scenarios, 93 representatives, 2 layouts) or refused (3 scenarios) "
-    "and written again vs a freshly built file."
+    "and written again vs a freshly built file (incl. another number of rows on the same code path with the cached "
+    "row_count read in between); result = 6 operations that yield new objects (copy, deserialize twice, component "
+    "deserialize, serialize result, pop result, items dict) x 2 flavours x 2 contents: re-binding edits of the result must "
+    "leave the operand equal to its model; combo = reserved word x special character, every class representative together "
+    "with a mask token in 9 position pairs, 6 two-feature names at each level; derived = 8 kinds of objects handed out by "
+    "the library x 4 storing operations x 2 flavours, target and source compared with their models."
 )
 ASSUMPTIONS = [
     "the strings '.' and '?' are generated only in the mask role (biotite infers the mask from the bare tokens)",
@@ -75,12 +80,18 @@ LETTERS = ["a", "x", "Z", "7", "q"]  # VERIF_SEED selects which plain symbol pla
 SPECIALS = [" ", "\t", "'", '"', "_", "#", ";", "$", "[", "]", ".", "?", "\n"]
 RESERVED = ["data_", "data_x", "loop_", "save_", "global_", "stop_", "DATA_X", "save_x", "LOOP_", "Global_", "loop_x",
             "stop_x", "data_ x", "loop_ x", "x data_", "x\ndata_y", "x\nloop_", "x\n_y.z w", "x\nsave_", " data_", "\tloop_"]
+# reserved word combined with every special character (two features handled by different branches of the writer)
+# (line breaks excluded: reserved words on the lines of a multi-line value are in RESERVED / the ml.* classes)
+RESERVED_COMBOS = [w + c for w in ("data_", "loop_", "save_", "global_", "stop_") for c in SPECIALS if c != "\n"] + \
+                  [c + w for w in ("data_", "loop_") for c in SPECIALS if c != "\n"]
 NAME_PALETTE = [
     # (name, class)
     ("a", "plain"), ("A1", "upper_digit"), ("atom_site", "inner_underscore"), ("_u", "lead_underscore"),
     ("x-y", "hyphen"), ("m[1][1]", "bracket"), ("a/b", "slash"), ("%x", "percent"), ("data_", "reserved_data"),
     ("loop_", "reserved_loop"), ("a#b", "inner_hash"), ("a;b", "inner_semicolon"),
 ]
+# names with two features (dim family 'combo'; not part of the 12^3 product)
+NAME_COMBOS = ["_m[1]", "loop_#x", "data_a;b", "_%x/y", "a#b[1]", "__u"]
 DEFAULT_NAMES = ("blk", "cat", ("k0", "k1", "k2"))
 LAYOUTS = [(R, C) for R in (1, 2, 3) for C in (1, 2, 3)]
 KEY_POSITIONS = [(1, 1, 0, 0), (2, 2, 1, 0), (2, 2, 0, 1)]  # single, loop line start, loop inline
@@ -114,7 +125,11 @@ def bounds(tier):
                          "flavour": {"text_data": sorted(DATA_FLAVOURS), "text_mask": MASK_FLAVOURS,
                                      "bin_data": sorted(BIN_DATA_FLAVOURS), "bin_mask": BIN_MASK_FLAVOURS},
                          "alias": {"inputs": ALIAS_INPUTS, "two_parents": TWO_PARENT_SCENARIOS},
-                         "reuse": {"scenarios": REUSE_SCENARIOS + REFUSED_SCENARIOS}},
+                         "reuse": {"scenarios": REUSE_SCENARIOS + REFUSED_SCENARIOS},
+                         "result": {"scenarios": RESULT_SCENARIOS},
+                         "combo": {"reserved_x_special": len(RESERVED_COMBOS), "mask_position_pairs": len(COMBO_MASK_POSITIONS),
+                                   "names": NAME_COMBOS},
+                         "derived": {"sources": DERIVED_SOURCES, "sinks": DERIVED_SINKS}},
     }
 
 
@@ -822,10 +837,10 @@ def gen_ops(level, flavour):
         ops.append(["set_wrong", "a"])
     if level == "category":
         ops.append(["set_raw", "ab"])
-        if flavour == "text":
-            # reading CIFCategory.row_count caches the value in the object: the value itself is not part of
-            # the statement (result 'any'), the cached state it leaves behind is part of the explored state
-            ops.append(["row_count"])
+        # reading (Binary)CIFCategory.row_count caches the value in the object: the cached state it leaves behind
+        # is part of the explored state; the value is demanded (documented: "the length of each column") only
+        # while no column has been stored since the last write / read of the file
+        ops.append(["row_count"])
     return ops
 
 
@@ -903,6 +918,9 @@ def apply_model(m, op, level, flavour, root_cats):
     if k == "row_count":
         if not m:
             raise Refuse(None)
+        lens = {col_rows(c) for c in m.values()}
+        if len(lens) == 1 and all(c[3] == "parsed" for c in m.values()):
+            return m, ("val", next(iter(lens)))
         return m, ("any",)
     if k in ("serialize", "reparse"):
         cats = all_categories(m, level)
@@ -1660,7 +1678,7 @@ def replay(case, ctx):
 # aliasing of inputs and outputs, reuse of one object for several writes.  Oracles: the round-trip identity
 # of the statement, `==` with a freshly built object, "a call does not change its arguments".
 # ===========================================================================
-DIM_FAMILIES = ["wide", "many", "flavour", "alias", "reuse"]
+DIM_FAMILIES = ["wide", "many", "flavour", "alias", "reuse", "result", "combo", "derived"]
 WIDE_LENGTHS = [1, 9, 10, 11, 63, 64, 65, 99, 100, 101, 255, 256, 257, 1000, 4096]
 WIDE_TEMPLATES = ["plain", "space", "squote", "multiline", "hash"]
 WIDE_POSITIONS = [(1, 1, 0, 0), (2, 2, 0, 0), (2, 2, 0, 1), (2, 2, 1, 1), (3, 3, 1, 1)]
@@ -1672,7 +1690,7 @@ MANY_ELEMS = [9, 10, 11, 101]
 
 def many_values(letter):
     return ["", letter + " " + letter, letter + "'" + letter, '"', letter + "\n" + letter, ".", "?", "#" + letter,
-            "_" + letter, "'\""]
+            "_" + letter, "'\"", letter + "' " + letter, "#" + letter + " " + letter]
 
 
 def wide_value(tpl, L, letter):
@@ -1822,6 +1840,31 @@ def dim_cases(family, tier, letter):
         for sc in REFUSED_SCENARIOS:
             for lay in ((1, 1), (2, 2)):
                 yield {"family": "reuse", "scenario": sc, "vi": -1, "lay": list(lay)}
+    elif family == "result":
+        for fl in FLAVOURS:
+            for sc in RESULT_SCENARIOS:
+                for content in ("b1", "b2"):
+                    yield {"family": "result", "fl": fl, "scenario": sc, "content": content}
+    elif family == "combo":
+        for v in RESERVED_COMBOS:
+            for (R, C, r, c) in KEY_POSITIONS + [(2, 2, 1, 1), (3, 3, 1, 0)]:
+                yield {"family": "combo", "sub": "reserved_special", "v": v, "pos": [R, C, r, c]}
+        reps = representatives(letter)
+        for vi in range(len(reps)):
+            for tok in (".", "?"):
+                for (R, C, p1, p2) in COMBO_MASK_POSITIONS:
+                    yield {"family": "combo", "sub": "value_and_mask", "vi": vi, "tok": tok, "lay": [R, C], "p1": list(p1),
+                           "p2": list(p2)}
+        for ni, _ in enumerate(NAME_COMBOS):
+            for lvl in range(3):
+                for (R, C) in NAME_LAYOUTS:
+                    for vi in range(len(NAME_VALUES)):
+                        yield {"family": "combo", "sub": "names", "ni": ni, "lvl": lvl, "lay": [R, C], "vi": vi}
+    elif family == "derived":
+        for fl in FLAVOURS:
+            for src in DERIVED_SOURCES[fl]:
+                for sink in DERIVED_SINKS:
+                    yield {"family": "derived", "fl": fl, "source": src, "sink": sink}
     else:
         raise ValueError(family)
     _ = q
@@ -2226,6 +2269,7 @@ def check_two_parents(ctx, case, letter, classes):
 
 # ---- reuse ----------------------------------------------------------------------------
 REUSE_SCENARIOS = ["replace_column_wider", "add_long_named_column", "delete_column", "rows_1_to_2_to_1",
+                   "rows_grow", "rows_grow_read_count", "rows_grow_shrink", "rows_shrink_from_4",
                    "replace_category", "rename_block", "lazy_touch_none", "lazy_touch_first", "lazy_touch_second",
                    "lazy_modify_second", "lazy_modify_first"]
 REFUSED_SCENARIOS = ["refused_write_then_repair", "refused_setter_then_write", "refused_delete_then_write"]
@@ -2319,6 +2363,24 @@ def check_reuse(ctx, case, letter):
                     f.serialize()
                     for k in list(cat):
                         cat[k] = list(first[k])
+                elif sc in ("rows_grow", "rows_grow_read_count", "rows_grow_shrink", "rows_shrink_from_4"):
+                    # another number of rows on the same code path (a looped table stays looped for R >= 2)
+                    if sc != "rows_grow":
+                        cat.row_count
+                    n2 = R + 2 if sc == "rows_shrink_from_4" else R + 1
+                    bigger = {k: [letter + "%d" % i for i in range(n2 - len(c))] + list(c) for k, c in first.items()}
+                    for k in list(cat):
+                        cat[k] = list(bigger[k])
+                    fm2["blk"]["cat"] = {k: fm_col(c) for k, c in bigger.items()}
+                    if sc in ("rows_grow_shrink", "rows_shrink_from_4"):
+                        if sc == "rows_grow_shrink":
+                            cat.row_count
+                        mid = pdbx.CIFFile.deserialize(f.serialize())
+                        if deep(mid, "file", "text") != deep_expected(fm2, "file"):
+                            raise AssertionError("intermediate write differs")
+                        for k in list(cat):
+                            cat[k] = list(first[k])
+                        fm2["blk"]["cat"] = {k: fm_col(c) for k, c in first.items()}
                 elif sc == "replace_category":
                     blk["cat"] = pdbx.CIFCategory({"k0": list(first["k0"]) + [letter]})
                     fm2["blk"]["cat"] = {"k0": fm_col(list(first["k0"]) + [letter])}
@@ -2426,8 +2488,8 @@ def check_dim(ctx, case, letter=None):
     letter = letter or case.get("letter") or letter_of(ctx.seed)
     case = dict(case, kind="dim", letter=letter)
     fam = case["family"]
-    {"wide": check_wide, "many": check_many, "flavour": check_flavour, "alias": check_alias, "reuse": check_reuse}[fam](
-        ctx, case, letter)
+    {"wide": check_wide, "many": check_many, "flavour": check_flavour, "alias": check_alias, "reuse": check_reuse,
+     "result": check_result, "combo": check_combo, "derived": check_derived}[fam](ctx, case, letter)
 
 
 def run_dim(shard, ctx):
@@ -2441,3 +2503,243 @@ def run_dim(shard, ctx):
         check_dim(ctx, case, letter)
         if len(ctx.samples) < 1 and i == 7:
             ctx.sample(dict(case, kind="dim"))
+
+
+# ---- second audit: result identity (A), two features in one value (C), derived inputs (E) --------------
+RESULT_SCENARIOS = ["copy", "deserialize_same_input_twice", "component_deserialize", "serialize_result_edited",
+                    "pop_result_edited", "items_dict_edited"]
+# (R, C, position of the awkward value, position of the mask token): same column, same row, diagonal, both orders
+COMBO_MASK_POSITIONS = [(1, 2, (0, 0), (0, 1)), (1, 2, (0, 1), (0, 0)), (2, 1, (0, 0), (1, 0)), (2, 1, (1, 0), (0, 0)),
+                        (2, 2, (0, 0), (1, 0)), (2, 2, (1, 0), (0, 0)), (2, 2, (0, 1), (1, 1)), (2, 2, (1, 0), (1, 1)),
+                        (2, 2, (0, 1), (1, 0))]
+DERIVED_SOURCES = {
+    "text": ["parsed_element", "parsed_element_lazy_parent", "popped_element", "items_dict", "column_as_array",
+             "column_data_mask_objects", "column_from_other_flavour", "component_roundtrip"],
+    "bin": ["parsed_element", "parsed_element_lazy_parent", "popped_element", "items_dict", "column_as_array",
+            "column_data_mask_objects", "column_from_other_flavour", "serialized_dict"],
+}
+DERIVED_SINKS = ["ctor", "setitem", "update", "setdefault"]
+
+
+def _classes(fl):
+    import biotite.structure.io.pdbx as pdbx
+
+    if fl == "text":
+        return pdbx.CIFData, pdbx.CIFColumn, pdbx.CIFCategory, pdbx.CIFBlock, pdbx.CIFFile
+    return pdbx.BinaryCIFData, pdbx.BinaryCIFColumn, pdbx.BinaryCIFCategory, pdbx.BinaryCIFBlock, pdbx.BinaryCIFFile
+
+
+def check_result(ctx, case, letter):
+    """An operation that yields a new object must not hand out (a part of) its operand: after re-binding edits of the
+    result the operand still equals its model. Equality of the result with the operand is only counted."""
+    import msgpack
+
+    fl, sc = case["fl"], case["scenario"]
+    Data, Col, Cat, Blk, Fil = _classes(fl)
+    fm = {"a": blk_model(case["content"], fl), "ab": blk_model("b1", fl)}
+    want = deep_expected(fm, "file")
+    ctx.ev(1, 1)
+    sig = "result|%s|%s|" % (fl, sc)
+
+    def edit(g):
+        """re-binding edits at every level of a file-like result"""
+        for k in list(g)[:1]:
+            b = g[k]
+            for ck in list(b)[:1]:
+                c = b[ck]
+                c["extra"] = build(col_model("c1" if col_rows(next(iter(fm[k][ck].values()))) == 2 else "c3", fl), "column", fl)
+                del c[next(iter(c))]
+            b["extra"] = build(cat_model("k1", fl), "category", fl)
+            del b[next(iter(b))]
+        g["extra"] = build(blk_model("b1", fl), "block", fl)
+        del g[next(iter(g))]
+
+    try:
+        f = build(fm, "file", fl)
+        operand = f
+        if sc == "copy":
+            g = f.copy()
+            ctx.count("result_copy_%s" % ("equal" if deep(g, "file", fl) == want else "differs_from_original"))
+            edit(g)
+        elif sc == "deserialize_same_input_twice":
+            if fl == "text":
+                inp = f.serialize()
+                g1, g2 = Fil.deserialize(inp), Fil.deserialize(inp)
+            else:
+                inp = msgpack.unpackb(serialized_root(f, fl), use_list=True, raw=False)
+                g1, g2 = Fil.deserialize(inp), Fil.deserialize(inp)
+            edit(g1)
+            operand = g2
+        elif sc == "component_deserialize":
+            f.serialize()  # a text block needs its name before it can be serialised on its own (documented)
+            b = f["a"]
+            ser = b.serialize()
+            g = Blk.deserialize(ser)
+            for ck in list(g)[:1]:
+                del g[ck]
+            g["extra"] = build(cat_model("k1", fl), "category", fl)
+        elif sc == "serialize_result_edited":
+            r = f.serialize()
+            if isinstance(r, dict):
+                r["dataBlocks"].append({"header": "extra", "categories": []})
+                r["extra"] = 1
+                f2 = parsed_operand(serialized_root(f, fl), "file", fl, False)  # lazily held dicts are handed out again
+                r2 = f2.serialize()
+                r2["dataBlocks"][0]["categories"] = []
+                r2["dataBlocks"].pop()
+                if deep(f2, "file", fl) != want:
+                    ctx.count("unspecified")
+                    ctx.count("result_shared:bin.serialize_dict_of_lazy_element")
+        elif sc == "pop_result_edited":
+            p = f.pop("ab")
+            p["extra"] = build(cat_model("k1", fl), "category", fl)
+            f["ab"] = build(blk_model("b1", fl), "block", fl)
+        elif sc == "items_dict_edited":
+            d = dict(f.items())
+            d["extra"] = 1
+            del d["a"]
+            d2 = dict(f["a"].items())
+            d2.clear()
+        got = deep(operand, "file", fl)
+        got2 = deep(parsed_operand(serialized_root(operand, fl), "file", fl, False), "file", fl)
+    except Exception as e:  # noqa: BLE001
+        ctx.violation(sig + "raises_" + type(e).__name__, "result-identity scenario raised", case, "success", type(e).__name__)
+        return
+    ctx.outcome(("result", fl, sc, case["content"]))
+    for label, g_ in (("operand_changed", got), ("operand_written_changed", got2)):
+        if g_ != want:
+            ctx.violation(sig + label, "editing the result of an operation that yields a new object changed the operand", case,
+                          expected=want, observed=_first_diff(want, g_))
+            return
+    ctx.count("accepted")
+
+
+def check_combo(ctx, case, letter):
+    sub = case["sub"]
+    ctx.ev(1, 1)
+    if sub == "reserved_special":
+        R, C, r, c = case["pos"]
+        v = case["v"]
+        mode, stage, payload, exp = eval_table(R, C, letter, {(r, c): v})
+        cls, lay = sigclass(v), layout_of(R, c)
+        explained = False
+    elif sub == "value_and_mask":
+        R, C = case["lay"]
+        p1, p2 = tuple(case["p1"]), tuple(case["p2"])
+        v = representatives(letter)[case["vi"]]
+        mode, stage, payload, exp = eval_table(R, C, letter, {p1: v, p2: case["tok"]}, mask_cells=(p2,))
+        cls = sigclass(v) + "+mask" + ("_inapplicable" if case["tok"] == "." else "_missing")
+        lay = pair_relation(R, p1, p2)
+        explained = mode is not None and eval_table(R, C, letter, {p1: v})[0] is not None
+    else:
+        R, C = case["lay"]
+        v = _name_values(letter)[case["vi"]]
+        nm = NAME_COMBOS[case["ni"]]
+        names = [DEFAULT_NAMES[0], DEFAULT_NAMES[1], list(DEFAULT_NAMES[2])]
+        if case["lvl"] == 2:
+            names[2][0] = nm
+        else:
+            names[case["lvl"]] = nm
+        pos = (R - 1, 0)
+        mk = (pos,) if v in (".", "?") else ()
+        mode, stage, payload, exp = eval_table(R, C, letter, {pos: v}, names=(names[0], names[1], tuple(names[2])), mask_cells=mk)
+        cls = "%s:name%d" % (("block", "category", "column")[case["lvl"]], case["ni"])
+        lay = layout_of(R, 0)
+        explained = mode is not None and eval_table(R, C, letter, {pos: v}, mask_cells=mk)[0] is not None
+    ctx.outcome(("combo", sub, cls, mode))
+    if mode is None:
+        ctx.count("accepted_exact")
+        return
+    if explained:
+        ctx.count("combo_explained_by_single_feature")
+        return
+    if cls in EITHER_CLASSES and mode == "serialize_error":
+        ctx.count("unspecified_refused")
+        return
+    ctx.violation("combo|%s|%s|%s|%s" % (sub, lay, mode, cls), "value / name with two awkward features does not survive the "
+                  "text round trip", case, expected=_obs_short("obs", exp), observed=_obs_short(stage, payload))
+
+
+def check_derived(ctx, case, letter):
+    """Objects handed out by the library (parsed, popped, listed, converted) are stored into another container through
+    every storing operation; the target must be written like a container built from the model, the source stays intact."""
+    fl, src, sink = case["fl"], case["source"], case["sink"]
+    other = "bin" if fl == "text" else "text"
+    Data, Col, Cat, Blk, Fil = _classes(fl)
+    ctx.ev(1, 1)
+    cm_masked = col_model("c2", fl)      # ("1", ".")
+    cm_plain = col_model("c1", fl)       # ("x", "y z")
+    src_fm = {"S": {"s": {"p": cm_masked, "q": cm_plain}, "s_t": {"p": cm_plain}}}
+    sig = "derived|%s|%s|%s|" % (fl, src, sink)
+    try:
+        source = parsed_operand(serialized_root(build(src_fm, "file", fl), fl), "file", fl, False)
+        level = "category"      # level of the object that is derived
+        if src == "parsed_element":
+            source["S"]["s"]["p"]
+            obj, om = source["S"]["s"], src_fm["S"]["s"]
+        elif src == "parsed_element_lazy_parent":
+            obj, om = source["S"], src_fm["S"]
+            level = "block"
+        elif src == "popped_element":
+            obj, om = source["S"].pop("s_t"), src_fm["S"]["s_t"]
+            src_fm = {"S": {"s": src_fm["S"]["s"]}}
+        elif src == "items_dict":
+            obj, om = Cat(dict(source["S"]["s"].items())), src_fm["S"]["s"]
+        elif src == "column_as_array":
+            c = source["S"]["s"]["p"]
+            arr = c.as_array(str)
+            obj = Col(arr) if fl == "text" else Col(arr, c.mask.array)
+            om = cm_masked if fl == "text" else ("col", "str", cm_masked[2], "fresh")
+            level = "column"
+        elif src == "column_data_mask_objects":
+            c = source["S"]["s"]["p"]
+            obj, om, level = Col(c.data, c.mask), cm_masked, "column"
+        elif src == "column_from_other_flavour":
+            oc = parsed_operand(serialized_root(build({"S": {"s": {"p": col_model("c2", other)}}}, "file", other), other),
+                                "file", other, False)["S"]["s"]["p"]
+            obj = Col(oc.as_array(str)) if fl == "text" else Col(oc.as_array(str), oc.mask.array)
+            om, level = cm_masked, "column"
+        elif src == "component_roundtrip":
+            obj, om = Cat.deserialize(source["S"]["s"].serialize()), src_fm["S"]["s"]
+        elif src == "serialized_dict":
+            obj, om = source["S"]["s"].serialize(), src_fm["S"]["s"]
+        else:
+            raise ValueError(src)
+        # the target: a container one level above the derived object, inside a complete file
+        key = "t" if level != "block" else "T"
+        Parent = {"column": Cat, "category": Blk, "block": Fil}[level]
+        if sink == "ctor":
+            if isinstance(obj, dict) and not isinstance(obj, Cat):
+                parent = Parent()
+                parent[key] = obj      # the constructors take objects; a serialised dict goes through __setitem__
+            else:
+                parent = Parent({key: obj})
+        else:
+            parent = Parent()
+            if sink == "setitem":
+                parent[key] = obj
+            elif sink == "update":
+                parent.update({key: obj})
+            else:
+                parent.setdefault(key, obj)
+        if level == "column":
+            root, tfm = Fil({"T": Blk({"c": parent})}), {"T": {"c": {key: om}}}
+        elif level == "category":
+            root, tfm = Fil({"T": parent}), {"T": {key: om}}
+        else:
+            root, tfm = parent, {key: om}
+        got = deep(parsed_operand(serialized_root(root, fl), "file", fl, False), "file", fl)
+        live = deep(root, "file", fl)
+        src_got = deep(parsed_operand(serialized_root(source, fl), "file", fl, False), "file", fl)
+    except Exception as e:  # noqa: BLE001
+        ctx.violation(sig + "raises_" + type(e).__name__, "storing a derived object raised", case, "success", type(e).__name__)
+        return
+    ctx.outcome(("derived", fl, src, sink))
+    want = deep_expected(tfm, "file")
+    for label, g_, w_ in (("target_written", got, want), ("target_live", live, want),
+                          ("source_written", src_got, deep_expected(src_fm, "file"))):
+        if g_ != w_:
+            ctx.violation(sig + label, "a container holding an object handed out by the library differs from the model", case,
+                          expected=w_, observed=_first_diff(w_, g_))
+            return
+    ctx.count("accepted")
